@@ -78,10 +78,38 @@ def write_seeds(corpus):
     return n
 
 
+DICTIONARY = [
+    b"\x42\x00\x78\x01", b"\x42\x00\x77\x01\x00\x00\x00\x38", b"\x42\x00\x69\x01\x00\x00\x00\x20",
+    b"\x42\x00\x6a\x02\x00\x00\x00\x04\x00\x00\x00\x01\x00\x00\x00\x00",
+    b"\x42\x00\x6b\x02\x00\x00\x00\x04\x00\x00\x00\x02\x00\x00\x00\x00",
+    b"\x42\x00\x6a\x02\x00\x00\x00\x04\x00\x00\x00\x02\x00\x00\x00\x00",
+    b"\x42\x00\x6b\x02\x00\x00\x00\x04\x00\x00\x00\x00\x00\x00\x00\x00",
+    b"\x42\x00\x0d\x02\x00\x00\x00\x04\x00\x00\x00\x01\x00\x00\x00\x00",
+    b"\x42\x00\x0f\x01", b"\x42\x00\x5c\x05\x00\x00\x00\x04", b"\x42\x00\x79\x01",
+    b"\x42\x00\x94\x07", b"\x42\x00\x50\x02\x00\x00\x00\x04", b"\x42\x00\x93\x08",
+    b"\x42\x00\x07\x06\x00\x00\x00\x08", b"\x42\x00\x92\x09\x00\x00\x00\x08",
+    b"\x00\x00\x00\x18\x00\x00\x00\x00", b"\xff\xff\xff\xff", b"\x00\x00\x00\x00"]
+
+
+def write_dictionary(path):
+    """libFuzzer dictionary of TTLV item headers (KMIP tag table); the empty-corpus run starts
+    from these tokens alone."""
+    with open(path, "w") as f:
+        for i, tok in enumerate(DICTIONARY):
+            f.write('t%d="%s"\n' % (i, "".join("\\x%02x" % b for b in tok)))
+
+
 def main():
     outdir, seed, runs, kind = sys.argv[1], int(sys.argv[2]), int(sys.argv[3]), sys.argv[4]
     corpus = os.path.join(outdir, "corpus")
     os.makedirs(corpus, exist_ok=True)
+    # libFuzzer leaves through _exit: all temporary databases go below one directory that the
+    # parent removes
+    import tempfile
+    work = tempfile.mkdtemp(prefix="c12-fuzz-work-", dir=os.environ.get("VERIF_TMP"))
+    os.environ["VERIF_TMP"] = work
+    with open(os.path.join(outdir, "workdir.txt"), "w") as f:
+        f.write(work)
     db, idx = store.standard_template()
     nseeds = write_seeds(corpus) if kind == "seeded" else 0
 
@@ -159,8 +187,11 @@ def main():
                 flush()
 
     flush()
+    dict_path = os.path.join(outdir, "ttlv.dict")
+    write_dictionary(dict_path)
     args = [sys.argv[0], corpus, "-runs=%d" % runs, "-seed=%d" % (seed % (2 ** 31)),
             "-max_len=3000", "-timeout=60", "-print_final_stats=0", "-verbosity=0",
+            "-dict=%s" % dict_path,
             "-artifact_prefix=%s/" % outdir]
     atheris.Setup(args, fuzz_session)
     try:
